@@ -49,6 +49,13 @@ def one_op(t, view, k, op, out, prefix, forks=None):
                     return '%d:%d:' % (a, b) + ','.join('1' if x else '0' for x in items)
                 return '%d:%d:' % (a, b) + ','.join(to_val(t[1], x) for x in items)
             out.append('%d.%s=%s' % (k, prefix, status(sl)))
+        elif o == 'childroot':
+            def childroot():
+                # the child VIEW is obtained and asked for its root: nothing below the child's root is needed
+                from pyimpl_store import child_of
+                ct, c = child_of(t, view, int(op[1]))
+                return c.hash_tree_root().hex()
+            out.append('%d.%s=%s' % (k, prefix, status(childroot)))
         elif o == 'iterk':
             def iterk():
                 # a consumer that stops early: only the first items of a plain iteration are asked for
